@@ -5,10 +5,11 @@ import (
 	"flag"
 	"fmt"
 	"os"
+	"os/exec"
 	"path/filepath"
+	"regexp"
 	"sort"
 	"strconv"
-	"regexp"
 	"strings"
 	"time"
 )
@@ -22,14 +23,14 @@ var verifDir = func() string {
 
 // PropConfig: /verif/props.json entry
 type PropConfig struct {
-	Functions   []string `json:"functions"`
-	Lemmas      []string `json:"lemmas"`
-	Schema      []string `json:"schema"`
+	Functions    []string `json:"functions"`
+	Lemmas       []string `json:"lemmas"`
+	Schema       []string `json:"schema"`
 	NoFailDecode []string `json:"nofail_decode"`
-	NotDecided  []string `json:"not_decided_clauses"`
-	Assumes     []string `json:"assumes"`
-	Note        string   `json:"note"`
-	Bounded     []string `json:"bounded"`
+	NotDecided   []string `json:"not_decided_clauses"`
+	Assumes      []string `json:"assumes"`
+	Note         string   `json:"note"`
+	Bounded      []string `json:"bounded"`
 }
 
 type FuncResult struct {
@@ -45,15 +46,15 @@ type FuncResult struct {
 
 // Group: clause-level obligation (all path instances of one stable id)
 type Group struct {
-	ID        string
-	Kind      string
-	Instances int
+	ID         string
+	Kind       string
+	Instances  int
 	Discharged int
-	Failed    []*Obligation
-	Backends  map[string]int
-	Seconds   float64
-	Taint     bool
-	Cover     bool
+	Failed     []*Obligation
+	Backends   map[string]int
+	Seconds    float64
+	Taint      bool
+	Cover      bool
 }
 
 func loadLibrary() (*Library, error) {
@@ -408,6 +409,15 @@ func runCheck(prop, tier string, seed int) int {
 			}
 		}
 	}
+	if tier == "thorough" && scenarioProps[prop] {
+		if sum, n := runScenarioSummary(); sum != "" {
+			if n == 0 {
+				bounded = append(bounded, "scenario search (replay/fs_scenarios_test.go.txt): the real handler agrees with the reference model of the spec functions on every enumerated request: "+sum+" [bounded cross-check of the contracts' spec functions against the code, not proof]")
+			} else {
+				bounded = append(bounded, "scenario search: "+sum+" -- the real handler disagrees with the reference model on some enumerated requests; reported only through a failed obligation")
+			}
+		}
+	}
 	reported := map[string]bool{}
 	// recorded, unrepaired defects: the obligations named in an open known-findings entry are expected to fail
 	openIDs := map[string]*KnownFinding{}
@@ -454,7 +464,13 @@ func runCheck(prop, tier string, seed int) int {
 	// contracts that no longer attach (renamed local in an invariant, changed signature ...): the bounded
 	// stand-in decides. A failing input is a violation; otherwise the function is reported as not proved.
 	var stillDetached []string
-	for _, k := range sortedKeys(map[string]bool(func() map[string]bool { m := map[string]bool{}; for k := range detached { m[k] = true }; return m }())) {
+	for _, k := range sortedKeys(map[string]bool(func() map[string]bool {
+		m := map[string]bool{}
+		for k := range detached {
+			m[k] = true
+		}
+		return m
+	}())) {
 		r := rtRes[k]
 		switch {
 		case r != nil && r.Failed:
@@ -466,6 +482,11 @@ func runCheck(prop, tier string, seed int) int {
 		default:
 			stillDetached = append(stillDetached, k)
 		}
+	}
+	// file-server properties: the verifier gives no model for a failed tree obligation; look for a concrete failing
+	// request by a bounded scenario search against the real handler (replay/fs_scenarios_test.go.txt)
+	if scenarioProps[prop] {
+		lines = attachScenario(prop, lines)
 	}
 	for i := range known {
 		kf := &known[i]
@@ -549,6 +570,107 @@ func runCheck(prop, tier string, seed int) int {
 	}
 	fmt.Printf("OK property=%s tier=%s obligations=%d discharged=%d undecided=%d wall=%.1fs\n", prop, tier, n, d, len(undecided), wall)
 	return 0
+}
+
+// runScenarioSummary runs the bounded scenario search and returns its summary line and the number of mismatches.
+func runScenarioSummary() (string, int) {
+	src := filepath.Join(verifDir, "replay", "fs_scenarios_test.go.txt")
+	if _, err := os.Stat(src); err != nil {
+		return "", 0
+	}
+	ov, err := os.CreateTemp("", "govc-sc-*.json")
+	if err != nil {
+		return "", 0
+	}
+	defer os.Remove(ov.Name())
+	fmt.Fprintf(ov, `{"Replace":{%q:%q}}`, filepath.Join(repoDir, "zz_govc_scenarios_test.go"), src)
+	ov.Close()
+	cmd := exec.Command("go", "test", "-overlay", ov.Name(), "-vet=off", "-count=1", "-timeout", "300s", "-run", "TestGovcScenarios", ".")
+	cmd.Dir = repoDir
+	cmd.Env = append(os.Environ(), "GOFLAGS=-mod=mod", "GOPROXY=off", "GOSUMDB=off", "GOVC_SCENARIO_LIMIT=0")
+	out, _ := cmd.CombinedOutput()
+	for _, l := range strings.Split(string(out), "\n") {
+		if strings.HasPrefix(l, "GOVC-SCENARIO-SUMMARY") {
+			n := 0
+			if i := strings.Index(l, "mismatches="); i >= 0 {
+				fmt.Sscanf(l[i:], "mismatches=%d", &n)
+			}
+			return strings.TrimPrefix(l, "GOVC-SCENARIO-SUMMARY "), n
+		}
+	}
+	return "", 0
+}
+
+var scenarioProps = map[string]bool{"C01": true, "C02": true, "C03": true, "C04": true, "C17": true}
+
+// attachScenario runs the bounded scenario search once and, if it finds requests on which the real handler
+// disagrees with the reference model, records them in the replay file of the first violation that has no
+// replayed input and drops that line's no-failing-input-found suffix. The search decides nothing.
+func attachScenario(prop string, lines []string) []string {
+	idx := -1
+	for i, l := range lines {
+		if strings.HasSuffix(l, " no-failing-input-found") {
+			idx = i
+			break
+		}
+	}
+	if idx < 0 {
+		return lines
+	}
+	src := filepath.Join(verifDir, "replay", "fs_scenarios_test.go.txt")
+	if _, err := os.Stat(src); err != nil {
+		return lines
+	}
+	ov, err := os.CreateTemp("", "govc-sc-*.json")
+	if err != nil {
+		return lines
+	}
+	defer os.Remove(ov.Name())
+	fmt.Fprintf(ov, `{"Replace":{%q:%q}}`, filepath.Join(repoDir, "zz_govc_scenarios_test.go"), src)
+	ov.Close()
+	cmd := exec.Command("go", "test", "-overlay", ov.Name(), "-vet=off", "-count=1", "-timeout", "300s", "-run", "TestGovcScenarios", ".")
+	cmd.Dir = repoDir
+	cmd.Env = append(os.Environ(), "GOFLAGS=-mod=mod", "GOPROXY=off", "GOSUMDB=off", "GOVC_SCENARIO_LIMIT=200")
+	out, _ := cmd.CombinedOutput()
+	var all, mine []string
+	summary := ""
+	for _, l := range strings.Split(string(out), "\n") {
+		if strings.HasPrefix(l, "GOVC-SCENARIO-FAIL ") {
+			all = append(all, l)
+			if strings.Contains(l, "category="+prop+"-") {
+				mine = append(mine, l)
+			}
+		} else if strings.HasPrefix(l, "GOVC-SCENARIO-SUMMARY") {
+			summary = l
+		}
+	}
+	pick := mine
+	if len(pick) == 0 {
+		pick = all
+	}
+	if len(pick) == 0 {
+		return lines
+	}
+	if len(pick) > 5 {
+		pick = pick[:5]
+	}
+	// the replay file of that violation
+	f := strings.TrimSuffix(lines[idx], " no-failing-input-found")
+	rp := f[strings.Index(f, "replay=")+7:]
+	var rep map[string]interface{}
+	if err := loadJSON(rp, &rep); err == nil {
+		rep["replayed_input"] = map[string]interface{}{
+			"kind":      "bounded scenario search against the real handler (webdav.Handler over LocalFileSystem in a temporary directory), compared with the reference model of the contracts' spec functions",
+			"scenarios": pick,
+			"summary":   summary,
+			"command":   "cd /repo && go test -overlay <{\"Replace\":{\"/repo/zz_govc_scenarios_test.go\":\"/verif/replay/fs_scenarios_test.go.txt\"}}> -vet=off -count=1 -run TestGovcScenarios .",
+		}
+		rep["note"] = "obligation discharged on the reference tree and not discharged on this tree; the solver gave no model; a concrete failing request was found by the bounded scenario search and is listed under replayed_input"
+		data, _ := json.MarshalIndent(rep, "", " ")
+		os.WriteFile(rp, data, 0o644)
+		lines[idx] = f
+	}
+	return lines
 }
 
 func writeReplay(prop string, g *Group, frs []*FuncResult) string {
@@ -927,6 +1049,41 @@ func cmdReplay(args []string) {
 		os.Exit(2)
 	}
 	fmt.Printf("property %s, obligation %s\n%s\n", rep.Property, rep.Obl, rep.Note)
+	// a file-server violation with scenarios from the bounded scenario search: run the search again on the current tree
+	var raw map[string]interface{}
+	loadJSON(args[0], &raw)
+	if ri, ok := raw["replayed_input"].(map[string]interface{}); ok {
+		if sc, ok := ri["scenarios"].([]interface{}); ok && len(sc) > 0 {
+			fmt.Println("recorded failing requests:")
+			for _, l := range sc {
+				fmt.Println("  ", l)
+			}
+			src := filepath.Join(verifDir, "replay", "fs_scenarios_test.go.txt")
+			ov, _ := os.CreateTemp("", "govc-sc-*.json")
+			fmt.Fprintf(ov, `{"Replace":{%q:%q}}`, filepath.Join(repoDir, "zz_govc_scenarios_test.go"), src)
+			ov.Close()
+			defer os.Remove(ov.Name())
+			cmd := exec.Command("go", "test", "-overlay", ov.Name(), "-vet=off", "-count=1", "-timeout", "300s", "-run", "TestGovcScenarios", ".")
+			cmd.Dir = repoDir
+			cmd.Env = append(os.Environ(), "GOFLAGS=-mod=mod", "GOPROXY=off", "GOSUMDB=off", "GOVC_SCENARIO_LIMIT=10")
+			out, _ := cmd.CombinedOutput()
+			n := 0
+			for _, l := range strings.Split(string(out), "\n") {
+				if strings.HasPrefix(l, "GOVC-SCENARIO-") {
+					fmt.Println(l)
+					if strings.HasPrefix(l, "GOVC-SCENARIO-FAIL") {
+						n++
+					}
+				}
+			}
+			if n > 0 {
+				fmt.Println("REPRODUCED on the current tree: the scenario search finds failing requests")
+				os.Exit(1)
+			}
+			fmt.Println("not reproduced on the current tree (the scenario search finds no failing request)")
+			os.Exit(0)
+		}
+	}
 	if rep.Input == nil || !rep.Input.Failed {
 		fmt.Println("no concrete failing input was recorded for this obligation (no-failing-input-found); the file carries the solver output")
 		os.Exit(0)
